@@ -63,15 +63,33 @@ class View:
             return True
         return (not self.case['cont']) and any(e[0] == 4 for e in self.ev)
 
-    def has_cycle(self):
-        """is there a dependency cycle inside the closure (all edge kinds)?"""
-        clo = self.closure(True)
+    def activated(self, t):
+        """did t's status check say `run` (only then its setup tasks become part of the run)?"""
+        l = self.pos.get((1, t))
+        if not l:
+            return False
+        nxt = self.ev[l[0] + 1] if l[0] + 1 < len(self.ev) else None
+        return not (nxt is not None and len(nxt) > 1 and nxt[1] == t and nxt[0] in (2, 3, 4, 8))
+
+    def eff_edges(self, full=False):
+        """dependency edges that are part of the run: task_dep / implicit file deps / calc_dep (incl. the
+        ones calc results added) always; setup edges of t only once t is to be executed (setup tasks are
+        selected lazily, doc: 'setup-tasks are only executed if the task is to be run')"""
+        return {u: set(self.non_setup_deps(u)) | (set(self.setup.get(u, [])) if (full or self.activated(u)) else set())
+                for u in range(self.n)}
+
+    def has_cycle(self, full=False):
+        """is there a dependency cycle inside the closure of the selection?"""
+        edges = self.eff_edges(full)
+        clo, todo = set(), list(self.case['selected'])
+        while todo:
+            t = todo.pop()
+            if t not in clo:
+                clo.add(t); todo += list(edges.get(t, ()))
         color = {}
         def visit(u):
             color[u] = 1
-            for v in set(self.deps.get(u, [])) | set(self.setup.get(u, [])):
-                if v not in clo:
-                    continue
+            for v in edges.get(u, ()):
                 if color.get(v) == 1:
                     return True
                 if v not in color and visit(v):
@@ -160,10 +178,34 @@ def oracle_c09(v):
     if v.rc == 97:
         bad.append(('internal-error', 'an internal error escaped run_all: %s' % v.case.get('_crash')))
     cyc = v.has_cycle()
-    if not cyc and v.rc == 3:
+    if not v.has_cycle(full=True) and v.rc == 3:
         bad.append(('false-cycle-error', 'cyclic-dependency error (exit 3) on an acyclic closure'))
     if cyc and v.rc in (0, 1, 2) and not ((not v.case['cont']) and any(e[0] == 4 for e in v.ev)):
         bad.append(('cycle-not-diagnosed', 'closure contains a dependency cycle but the run ended with exit %s' % v.rc))
+    # the theorem C09_cycle_never_runs, observed on the implementation: nothing that sits on a cycle of the
+    # final graph (all edge kinds) is ever started or gets a final report
+    edges = v.eff_edges()
+    def reaches(a, b):
+        seen, todo = set(), list(edges.get(a, ()))
+        while todo:
+            y = todo.pop()
+            if y == b:
+                return True
+            if y not in seen:
+                seen.add(y); todo += list(edges.get(y, ()))
+        return False
+    for t in range(v.n):
+        if reaches(t, t):
+            if v.started(t) or v.count(5, t):
+                bad.append(('cycle-task-executed', 'task %d is on a dependency cycle and was executed' % t))
+            if [e for e in v.finals(t) if e[0] in (2, 3, 6)]:
+                bad.append(('cycle-task-final', 'task %d is on a dependency cycle and was reported done/skipped' % t))
+    # progress: on an acyclic closure a run that is not cut short gives every closure task a final report
+    if not v.has_cycle(full=True) and not v.cut_short():
+        for t in sorted(v.closure(False)):
+            if not v.finals(t):
+                bad.append(('no-progress', 'acyclic closure, run not cut short, exit %s, but task %d never got a final report' % (v.rc, t)))
+                break
     return bad
 
 
